@@ -4,9 +4,10 @@
      2  dial worker loop        (SpecWorker.v)
      3  dialSync                (SpecSync.v)
      4  DefaultDialRanker       (SpecRanker.v)
+     5  whole Swarm.DialPeer    (SpecDialPeer.v; monitor only)
    No proofs here. *)
 From Coq Require Import List ZArith Bool.
-From Verif Require Import lib.Wire c05.SpecLimiter c05.SpecWorker c05.SpecRanker c05.SpecSync.
+From Verif Require Import lib.Wire c05.SpecLimiter c05.SpecWorker c05.SpecRanker c05.SpecSync c05.SpecDialPeer.
 Import ListNotations.
 Local Open Scope Z_scope.
 
@@ -16,6 +17,7 @@ Definition conform_case (l : list Z) : list Z :=
   | 2 :: r => conform_w_case r
   | 3 :: r => conform_s_case r
   | 4 :: r => conform_r_case r
+  | 5 :: r => conform_d_case r
   | _ => [ERR_MALFORMED; 0]
   end.
 
@@ -25,5 +27,6 @@ Definition monitor_case (l : list Z) : list Z :=
   | 2 :: r => monitor_w_case r
   | 3 :: r => monitor_s_case r
   | 4 :: r => monitor_r_case r
+  | 5 :: r => monitor_d_case r
   | _ => [ERR_MALFORMED; 0]
   end.
